@@ -146,11 +146,21 @@ class Ctx:
         return fi
 
 
-def stream_impl(fi, scaffolds, L):
+def stream_impl(fi, scaffolds, L, earlier=None):
+    """earlier = (gap character, line length, buffer size): the same index object has already streamed the same
+    assembly with those settings (a soft-masked copy, say) -- which must leave nothing behind"""
     out = io.BytesIO()
     asm = Assembly("x")
     for sc in scaffolds:
         asm.add_scaffold(A.scaffold_to_obj(sc))
+    if earlier:
+        keep = fi.buffer_size
+        try:
+            fi.buffer_size = earlier[2]
+            FastaStream(io.BytesIO(), fi, line_length=earlier[1], gap_character=earlier[0]).write_assembly(asm)
+        except Exception:
+            pass
+        fi.buffer_size = keep
     try:
         FastaStream(out, fi, line_length=L).write_assembly(asm)
     except Exception as e:
